@@ -585,7 +585,9 @@ func checkNative(t *rapid.T, hashBits, sigBits int) {
 	tr, ts, tv := ref.SecpTwin(r, s, sb[64]-27)
 	m = clone(base)
 	m.Sign = common.BytesToSign(sig65(tr, ts, 27+tv))
-	e.countOnly("native_twin_high_s", m)
+	// the mirror signature (r, n-s, flipped recovery id) is a CHANGED signature of an accepted transaction: the
+	// statement requires rejection, and the node's own verify rejects the high-s form
+	e.mustReject("sigtwin", "native_twin_high_s", m, "signature replaced by its mirror (r, n-s, recovery id flipped): same recovered key, different signature bytes")
 	m = clone(base)
 	m.Sign = common.BytesToSign(sig65(r, s, sb[64]-27))
 	e.countOnly("native_twin_v_0_1", m)
@@ -895,7 +897,7 @@ func checkEth(t *rapid.T, hashBits, payloadBits int) {
 	tr, ts, tv := ref.SecpTwin(r, s, byte(new(big.Int).Sub(v, new(big.Int).Add(new(big.Int).Lsh(cid, 1), big.NewInt(35))).Uint64()))
 	vt := new(big.Int).Lsh(cid, 1)
 	vt.Add(vt, big.NewInt(35+int64(tv)))
-	e.countOnly("eth_twin_high_s", wrap(f, k.addrHex, f.payload(vt, tr, ts), c.id))
+	e.mustReject("sigtwin", "eth_twin_high_s", wrap(f, k.addrHex, f.payload(vt, tr, ts), c.id), "payload signature replaced by its high-s mirror")
 	m = clone(base)
 	m.Source = upperHex(m.Source)
 	e.countOnly("eth_alias_source_uppercase", m)
